@@ -52,3 +52,198 @@ Definition ite_function (a b c : option bool) : option bool :=
   | None, _, _ => None
   end.
 Definition if_then_else (A B C : bdd) : outcome bdd := ternary_op A B C ite_function.
+
+(* ======================================================================================== *)
+(* Constructors (step-faithful: these are straight-line node pushes in the Rust)            *)
+Definition mk_var (nv x : N) : bdd := [mkNode nv 0 0; mkNode nv 1 1; mkNode x 0 1].
+Definition mk_not_var (nv x : N) : bdd := [mkNode nv 0 0; mkNode nv 1 1; mkNode x 1 0].
+Definition mk_literal (nv x : N) (c : bool) : bdd := if c then mk_var nv x else mk_not_var nv x.
+(* BddVariableSet::mk_var & co. carry a debug_assert on the variable id *)
+Definition vs_mk_literal (nv x : N) (c : bool) : outcome bdd := if x <? nv then Ok (mk_literal nv x c) else Panic.
+
+(* partial valuations: list of cells, index = variable *)
+Definition pval := list (option bool).
+Fixpoint pv_cells_from (i : N) (pv : pval) : list (N * bool) :=
+  match pv with
+  | [] => []
+  | None :: r => pv_cells_from (i + 1) r
+  | Some c :: r => (i, c) :: pv_cells_from (i + 1) r
+  end.
+Definition pv_cells (pv : pval) : list (N * bool) := pv_cells_from 0 pv.   (* to_values: ascending *)
+Fixpoint pv_set (pv : pval) (x : nat) (c : option bool) : pval :=
+  match x, pv with
+  | O, [] => [c]
+  | O, _ :: r => c :: r
+  | S k, [] => None :: pv_set [] k c
+  | S k, a :: r => a :: pv_set r k c
+  end.
+Definition pv_from_values (l : list (N * bool)) : pval :=
+  fold_left (fun pv xc => pv_set pv (N.to_nat (fst xc)) (Some (snd xc))) l [].
+Definition pv_get (pv : pval) (x : N) : option bool := nth (N.to_nat x) pv None.
+
+(* chain of nodes for a conjunction of literals, cells in DEscending variable order *)
+Fixpoint conj_chain (cells : list (N * bool)) (acc : bdd) : bdd :=
+  match cells with
+  | [] => acc
+  | (x, c) :: r => let root := size acc - 1 in
+                   conj_chain r (acc ++ [if c then mkNode x 0 root else mkNode x root 0])
+  end.
+Definition mk_partial_valuation (nv : N) (pv : pval) : bdd := conj_chain (rev (pv_cells pv)) (mk_true nv).
+Definition cells_in_range (nv : N) (pv : pval) : bool := forallb (fun xc => fst xc <? nv) (pv_cells pv).
+Definition mk_conjunctive_clause (nv : N) (pv : pval) : outcome bdd :=
+  if cells_in_range nv pv then Ok (mk_partial_valuation nv pv) else Panic.
+
+Fixpoint disj_chain (cells : list (N * bool)) (shadow : N) (acc : bdd) : bdd :=
+  match cells with
+  | [] => acc
+  | (x, c) :: r => let acc' := acc ++ [if c then mkNode x shadow 1 else mkNode x 1 shadow] in
+                   disj_chain r (size acc' - 1) acc'
+  end.
+Definition mk_disjunctive_clause (nv : N) (pv : pval) : outcome bdd :=
+  match pv_cells pv with
+  | [] => Ok (mk_false nv)
+  | _ => if cells_in_range nv pv then Ok (disj_chain (rev (pv_cells pv)) 0 (mk_true nv)) else Panic
+  end.
+
+Definition of_valuation (v : list bool) : bdd :=
+  mk_partial_valuation (N.of_nat (length v)) (map Some v).
+
+(* ======================================================================================== *)
+(* Named binary operators                                                                    *)
+Definition bdd_and (a b : bdd) := binary_op a b op_and.
+Definition bdd_or (a b : bdd) := binary_op a b op_or.
+Definition bdd_and_not (a b : bdd) := binary_op a b op_and_not.
+Definition bdd_iff (a b : bdd) := binary_op a b op_iff.
+
+(* ======================================================================================== *)
+(* Quantification.  var_exists/var_for_all are the library's own composition (fused flip).
+   exists/for_all/binary_op_with_*/binary_op_nested are I/O-equivalent models: the nested apply
+   of the Rust is modelled by "operate, then project the triggered variables one at a time";
+   by canonicity the arrays must coincide. *)
+Definition var_exists (b : bdd) (x : N) : outcome bdd := fused_binary_flip_op b b None (Some x) None op_or.
+Definition var_for_all (b : bdd) (x : N) : outcome bdd := fused_binary_flip_op b b None (Some x) None op_and.
+
+Fixpoint fold_vars (f : bdd -> N -> outcome bdd) (vars : list N) (b : bdd) : outcome bdd :=
+  match vars with
+  | [] => Ok b
+  | x :: r => bind (f b x) (fold_vars f r)
+  end.
+(* variables outside the diagram's range are never decision variables, hence never triggered *)
+Definition in_range (b : bdd) (vars : list N) : list N := filter (fun x => x <? nvars b) vars.
+Definition project (univ : bool) (b : bdd) (vars : list N) : outcome bdd :=
+  fold_vars (if univ then var_for_all else var_exists) (in_range b vars) b.
+Definition binary_op_with_exists (a b : bdd) (op : op2) (vars : list N) : outcome bdd :=
+  bind (binary_op a b op) (fun r => project false r vars).
+Definition binary_op_with_for_all (a b : bdd) (op : op2) (vars : list N) : outcome bdd :=
+  bind (binary_op a b op) (fun r => project true r vars).
+Definition bdd_exists (b : bdd) (vars : list N) := binary_op_with_exists b b op_and vars.
+Definition bdd_for_all (b : bdd) (vars : list N) := binary_op_with_for_all b b op_and vars.
+(* trigger predicate given as a bit list over the variables; inner operator is `or` (false) or `and` (true) *)
+Fixpoint triggered_from (i : N) (trig : list bool) : list N :=
+  match trig with [] => [] | t :: r => (if t then [i] else []) ++ triggered_from (i + 1) r end.
+Definition binary_op_nested (a b : bdd) (trig : list bool) (outer : op2) (inner_is_and : bool) : outcome bdd :=
+  bind (binary_op a b outer) (fun r => project inner_is_and r (triggered_from 0 trig)).
+
+(* ======================================================================================== *)
+(* select / restrict / pick                                                                  *)
+Definition var_select (b : bdd) (x : N) (c : bool) : outcome bdd := bdd_and b (mk_literal (nvars b) x c).
+Definition select (b : bdd) (lits : list (N * bool)) : outcome bdd :=
+  bdd_and b (mk_partial_valuation (nvars b) (pv_from_values lits)).
+(* restriction: I/O-equivalent model  b[x:=c] = exists x. (b /\ x=c) *)
+Definition var_restrict1 (b : bdd) (xc : N * bool) : outcome bdd :=
+  bind (var_select b (fst xc) (snd xc)) (fun s => var_exists s (fst xc)).
+Fixpoint restrict_cells (cells : list (N * bool)) (b : bdd) : outcome bdd :=
+  match cells with [] => Ok b | xc :: r => bind (var_restrict1 b xc) (restrict_cells r) end.
+Definition restrict (b : bdd) (lits : list (N * bool)) : outcome bdd :=
+  if is_true b || is_false b then Ok b
+  else bind (bdd_and b b) (* canonical form of b: the Rust rebuilds the diagram with hash-consing *)
+         (restrict_cells (filter (fun xc => fst xc <? nvars b) (pv_cells (pv_from_values lits)))).
+Definition var_restrict (b : bdd) (x : N) (c : bool) := restrict b [(x, c)].
+
+Definition var_pick_pref (b : bdd) (x : N) (pref : bool) : outcome bdd :=
+  bind (var_select b x pref) (fun s => fused_binary_flip_op b s None (Some x) None op_and_not).
+Definition var_pick (b : bdd) (x : N) := var_pick_pref b x false.
+(* gen_bool(0.5) consumes one script bit; exhausted script reads true *)
+Definition next_bit (script : list bool) : bool * list bool :=
+  match script with [] => (true, []) | c :: r => (c, r) end.
+Definition var_pick_random (b : bdd) (x : N) (script : list bool) : outcome bdd * list bool :=
+  let '(c, rest) := next_bit script in (var_pick_pref b x c, rest).
+
+(* insertion sort (BddVariable order) keeping duplicates, like slice::sort *)
+Fixpoint insert_sorted (x : N) (l : list N) : list N :=
+  match l with [] => [x] | y :: r => if x <=? y then x :: l else y :: insert_sorted x r end.
+Definition sort_vars (l : list N) : list N := fold_right insert_sorted [] l.
+
+(* r_pick over the sorted list, last variable first; `rvars` is the list reversed *)
+Fixpoint r_pick (rvars : list N) (set : bdd) : outcome bdd :=
+  match rvars with
+  | [] => Ok set
+  | x :: rest =>
+    bind (var_exists set x) (fun ex =>
+    bind (r_pick rest ex) (fun picked =>
+    bind (var_pick set x) (fun vp => bdd_and picked vp)))
+  end.
+Definition pick (b : bdd) (vars : list N) : outcome bdd := r_pick (rev (sort_vars vars)) b.
+
+Fixpoint r_pick_random (rvars : list N) (set : bdd) (script : list bool) : outcome bdd * list bool :=
+  match rvars with
+  | [] => (Ok set, script)
+  | x :: rest =>
+    match var_exists set x with
+    | Ok ex =>
+      let '(picked, script1) := r_pick_random rest ex script in
+      let '(vp, script2) := var_pick_random set x script1 in
+      (bind picked (fun p => bind vp (fun v => bdd_and p v)), script2)
+    | Panic => (Panic, script) | OutOfFuel => (OutOfFuel, script)
+    end
+  end.
+Definition pick_random (b : bdd) (vars : list N) (script : list bool) : outcome bdd :=
+  fst (r_pick_random (rev (sort_vars vars)) b script).
+
+(* ======================================================================================== *)
+(* substitute: I/O-equivalent model  f[x := g] = (g /\ f[x:=1]) \/ (~g /\ f[x:=0])           *)
+Definition support (b : bdd) : list N := map nvar (skipn 2 b).
+Definition mem (x : N) (l : list N) : bool := existsb (N.eqb x) l.
+Definition substitute (f : bdd) (x : N) (g : bdd) : outcome bdd :=
+  if negb (mem x (support f)) then Ok f
+  else if negb (nvars f =? nvars g) then Panic
+  else
+    bind (var_restrict f x true) (fun f1 =>
+    bind (var_restrict f x false) (fun f0 =>
+    bind (bdd_and g f1) (fun t1 =>
+    bind (binary_op g f0 (lazy_op (fun a b => negb a && b))) (fun t0 =>
+    bdd_or t1 t0)))).
+
+(* ======================================================================================== *)
+(* Normal-form constructors (I/O-equivalent: fold of the clause diagrams)                    *)
+Fixpoint mk_dnf_fold (nv : N) (cs : list pval) (acc : bdd) : outcome bdd :=
+  match cs with
+  | [] => Ok acc
+  | c :: r => bind (mk_conjunctive_clause nv c) (fun cb => bind (bdd_or acc cb) (mk_dnf_fold nv r))
+  end.
+Definition mk_dnf (nv : N) (cs : list pval) : outcome bdd := mk_dnf_fold nv cs (mk_false nv).
+Fixpoint mk_cnf_fold (nv : N) (cs : list pval) (acc : bdd) : outcome bdd :=
+  match cs with
+  | [] => Ok acc
+  | c :: r => bind (mk_disjunctive_clause nv c) (fun cb => bind (bdd_and acc cb) (mk_cnf_fold nv r))
+  end.
+Definition mk_cnf (nv : N) (cs : list pval) : outcome bdd := mk_cnf_fold nv cs (mk_true nv).
+
+(* ======================================================================================== *)
+(* Threshold constructors: the library's own double loop over proved operators               *)
+Definition all_false_clause (vars : list N) : pval := pv_from_values (map (fun x => (x, false)) vars).
+Fixpoint sat_round (nv : N) (vars : list N) (result acc : bdd) : outcome bdd :=
+  match vars with
+  | [] => Ok acc
+  | x :: r =>
+    bind (vs_mk_literal nv x false) (fun nx =>
+    bind (fused_binary_flip_op result nx None None (Some x) op_and) (fun prop =>
+    bind (bdd_or acc prop) (fun acc' => sat_round nv r result acc')))
+  end.
+Fixpoint sat_iter (k : nat) (nv : N) (vars : list N) (upto : bool) (result : bdd) : outcome bdd :=
+  match k with
+  | O => Ok result
+  | S k' => bind (sat_round nv vars result (if upto then result else mk_false nv)) (sat_iter k' nv vars upto)
+  end.
+Definition mk_sat_k (upto : bool) (nv k : N) (vars : list N) : outcome bdd :=
+  bind (mk_conjunctive_clause nv (all_false_clause vars)) (sat_iter (N.to_nat k) nv vars upto).
